@@ -1,6 +1,7 @@
 import OmbottModel.Model.RouterEditSpec
 import OmbottModel.Lemmas.RouterEditProps
 import OmbottModel.Lemmas.RouterEditWitness
+import OmbottModel.Lemmas.RouterEditMaps
 import OmbottModel.Lemmas.RouterParse
 /-!
 C11 — The router after any edit history equals a freshly built router.
@@ -131,6 +132,34 @@ theorem router_refines_maps (upper : Str → Str) (ops : List EditOp) (hok : ∀
     (∀ q, NoLitTok q → ¬ taintRun ops (patStr q) → hookAtShape R.tree q = R.hookAt (patStr q)) := by
   have h := editRun_inv upper ops hok
   exact ⟨⟨h.inv.wf, h.inv.den⟩, h.named, fun q hq hT => hookAtShape_eq_index h q hq hT⟩
+
+/-- **The editing calls act on the three maps as the plain finite-map spec does**
+(`Model/RouterEditSpec.lean`: `Maps.dropRoutes`, `Maps.setHook`), in every state a history can
+reach: `remove(rule)` erases from `routes` the pattern (or, for `prefix*`, every pattern string
+that starts with the prefix: `keepOf` is false exactly there) together with the names of the
+erased routes, and leaves `hooks` alone; `remove(name=…)` erases the named route and all its
+names, an unknown name changes nothing; `remove_hook` erases the one pair; an accepted `add_hook`
+on a specified pattern sets the pair to the old pair of the map with the hook installed in its
+slot.  With `router_refines_maps` (the tree follows the maps) this is the refinement of the
+three-map spec by the router. -/
+theorem edits_on_maps (upper : Str → Str) (ops : List EditOp) (hok : ∀ op ∈ ops, EditOK op) :
+    let R := Router.editRun upper ops
+    (∀ pat, (R.removePattern pat).1.maps = R.maps.dropRoutes (fun ps => !keepOf pat ps)) ∧
+    (∀ name, match R.nameAt name with
+      | some v => (R.removeName name).1.maps = R.maps.dropRoutes (fun ps => ps == patStr v.syms)
+      | none => (R.removeName name).1.maps = R.maps) ∧
+    (∀ cenv rule p, parseRule cenv rule = .ok p → (starSplit p.syms).2 = false →
+      (R.removeHook cenv rule).1.maps = R.maps.setHook (patStr p.syms) none) ∧
+    (∀ p hook pt pat, NoLitTok p.syms → ¬ taintRun ops (patStr p.syms) →
+      (R.addHookParsed p hook pt).2 = .ok pat →
+      (R.addHookParsed p hook pt).1.maps =
+        R.maps.setHook (patStr p.syms) (some (installHook (R.hookAt (patStr p.syms)) hook pt))) := by
+  have h := editRun_inv upper ops hok
+  refine ⟨fun pat => removePattern_maps h pat, fun name => removeName_maps h name,
+    fun cenv rule p hp hs => removeHook_maps _ cenv rule p hp hs, ?_⟩
+  intro p hook pt pat hnt hT hres
+  rw [← hookAtShape_eq_index h p.syms hnt hT]
+  exact addHook_maps h p hook pt hT pat hres
 
 /-! ## the property -/
 
